@@ -222,10 +222,113 @@ func runC14(tier string) int {
 	r.Set("max_movement_list_length_completed", completed)
 	r.Set("movement_element_kinds", len(elems))
 	c14Marts(r, tier, sw)
+	c14Scaled(r, tier)
 	r.Assume("multipliers with a leading zero are not generated (octal vs decimal is not specified)",
 		"expected expansion is computed by the generator: N copies in order, cut after the first step_end, exactly one step_end last")
 	return r.Finish(r.Get("evaluations"), r.Get("nontrivial"),
-		"every movement list of <= L elements over 42 element kinds (3 steps x 12 multipliers incl. 0, negative, 9999, 10000, hex and a 20-digit number; 6 poryswitch-selected segments in colon, brace and nested forms) x statement / moves() form (and two moves() in one script that differ only in the length of the last run) x 3 separator styles; every mart list of <= M items over plain items, ITEM_NONE, constants (one equal to ITEM_NONE) and poryswitch segments; non-trivial = a multiplier > 1 or a multi-step segment is present")
+		"every movement list of <= L elements over 42 element kinds (3 steps x 12 multipliers incl. 0, negative, 9999, 10000, hex and a 20-digit number; 6 poryswitch-selected segments in colon, brace and nested forms) x statement / moves() form (and two moves() in one script that differ only in the length of the last run) x 3 separator styles; every mart list of <= M items over plain items, ITEM_NONE, constants (one equal to ITEM_NONE) and poryswitch segments; plus 'step * N' for every N in 1..10005, decimal and hex, statement and moves(); plus lists of K different steps and marts of K items for every K up to the bound in the coverage; non-trivial = a multiplier > 1 or a multi-step segment is present")
+}
+
+// c14Scaled: the size dimension. Every multiplier value from 1 to 10005,
+// decimal and hex, in a statement and in moves(); lists of K different steps and marts of K items for every K
+// up to a bound.
+func c14Scaled(r *harness.Run, tier string) {
+	var ns []int
+	for n := 1; n <= 10005; n++ {
+		ns = append(ns, n)
+	}
+	done := r.Parallel(uint64(len(ns))*4, func(w int, idx uint64) {
+		n := ns[idx/4]
+		variant := int(idx % 4)
+		lit := fmt.Sprint(n)
+		if variant >= 2 {
+			lit = fmt.Sprintf("0x%X", n)
+		}
+		var src, label string
+		if variant%2 == 0 {
+			src, label = "movement M {\n\tpre\n\tst * "+lit+"\n\tpost\n}\n", "M"
+		} else {
+			src, label = "script S {\n\tapplymovement(1, moves(pre st * "+lit+" post))\n}\n", "S_Movement_0"
+		}
+		res := comp.Compile(src, comp.Opts{Optimize: true})
+		r.Add("evaluations", 1)
+		r.Add("nontrivial", 1)
+		r.Add("multiplier_values", 1)
+		fail := func(sig, what string) {
+			r.Report(harness.Violation{Sig: sig, Summary: fmt.Sprintf("%s\n  source: %q", what, src), Replay: map[string]interface{}{"source": src, "problem": what}})
+		}
+		if res.Panic != "" {
+			fail("C14:panic", "compiler panic: "+firstLine(res.Panic))
+			return
+		}
+		if n > 9999 {
+			if res.Err == nil {
+				fail("C14:bad-multiplier-accepted", "a multiplier outside 1..9999 was accepted")
+			}
+			return
+		}
+		if res.Err != nil {
+			fail("C14:rejected:"+firstWords(res.Err.Error(), 5), "well-formed list rejected: "+res.Err.Error())
+			return
+		}
+		got, ok := blockAfter(res.Out, label)
+		good := ok && len(got) == n+4 && got[1] == "\tpre" && got[n+2] == "\tpost" && got[n+3] == "\tstep_end"
+		if good {
+			for _, l := range got[2 : n+2] {
+				if l != "\tst" {
+					good = false
+					break
+				}
+			}
+		}
+		if !good {
+			fail(fmt.Sprintf("C14:movement-block-differs:multiplier-form%d", variant%2), fmt.Sprintf("'st * %s' between pre and post: block of %d lines, want label, pre, %d x st, post, step_end", lit, len(got), n))
+		}
+	})
+	maxK := 60
+	if tier == "thorough" {
+		maxK = 400
+	}
+	done2 := r.Parallel(uint64(maxK)*3, func(w int, idx uint64) {
+		k := int(idx/3) + 1
+		form := int(idx % 3)
+		var parts, want []string
+		var src string
+		switch form {
+		case 0, 1:
+			for i := 0; i < k; i++ {
+				parts = append(parts, fmt.Sprintf("s%d", i))
+				want = append(want, fmt.Sprintf("\ts%d", i))
+			}
+			want = append(want, "\tstep_end")
+			if form == 0 {
+				src = "movement M {\n\t" + strings.Join(parts, "\n\t") + "\n}\n"
+				want = append([]string{"M:"}, want...)
+			} else {
+				src = "script S {\n\tapplymovement(1, moves(" + strings.Join(parts, " ") + "))\n}\n"
+				want = append([]string{"S_Movement_0:"}, want...)
+			}
+		default:
+			for i := 0; i < k; i++ {
+				parts = append(parts, fmt.Sprintf("IT%d", i))
+				want = append(want, fmt.Sprintf("\t.2byte IT%d", i))
+			}
+			src = "mart M {\n\t" + strings.Join(parts, "\n\t") + "\n}\n"
+			want = append(append([]string{"M:"}, want...), "\t.2byte ITEM_NONE")
+		}
+		res := comp.Compile(src, comp.Opts{Optimize: true})
+		r.Add("evaluations", 1)
+		r.Add("long_lists", 1)
+		label := strings.TrimSuffix(want[0], ":")
+		got, ok := blockAfter(res.Out, label)
+		if res.Err != nil || res.Panic != "" || !ok || strings.Join(got, "\n") != strings.Join(want, "\n") {
+			r.Report(harness.Violation{Sig: fmt.Sprintf("C14:long-list:form%d", form), Summary: fmt.Sprintf("list of %d elements (form %d): error %v, block %q", k, form, res.Err, clip(strings.Join(got, "\n"), 300)), Replay: map[string]interface{}{"source": src, "want": want, "output": res.Out}})
+		}
+	})
+	if !done || !done2 {
+		r.NotExhaustive("scaled movement / mart lists not completed")
+	}
+	r.Set("long_list_max_elements", maxK)
 }
 
 func c14Marts(r *harness.Run, tier string, sw map[string]string) {
